@@ -75,6 +75,17 @@ type BlueprintStateful[E Element] interface {
 	Reset()
 }
 
+// BlueprintStatefulCloner is implemented by stateful blueprints whose state depends on the
+// witness being solved. The solver then works on a fresh instance per Solve (sharing only the
+// immutable data with the original), so that concurrent Solve calls on the same constraint
+// system do not share it.
+type BlueprintStatefulCloner[E Element] interface {
+	BlueprintStateful[E]
+
+	// CloneForSolve returns a new instance in its initial (reset) state.
+	CloneForSolve() BlueprintStateful[E]
+}
+
 // Compressible represent an object that knows how to encode itself as a []uint32.
 type Compressible interface {
 	// Compress interprets the objects as a LinearExpression and encodes it as a []uint32.
